@@ -8,19 +8,20 @@ import (
 )
 
 // Value is one of:
-//   *Term            ints (BV of Go width) and bools (W=0)
-//   string / *SymStr strings
-//   Ptr              pointers
-//   SliceV           slices
-//   IfaceV           interface values
-//   *StructV         struct values (by value)
-//   *ArrV            array values (by value)
-//   TupleV           multi-results
-//   MapV             maps
-//   *ssa.Function, *ClosureV, *ssa.Builtin   funcs
-//   BigV             math/big.Int payload (stored in the cell of a big.Int object)
-//   OnceV            sync.Once payload
-//   nil              zero func / untyped nil
+//
+//	*Term            ints (BV of Go width) and bools (W=0)
+//	string / *SymStr strings
+//	Ptr              pointers
+//	SliceV           slices
+//	IfaceV           interface values
+//	*StructV         struct values (by value)
+//	*ArrV            array values (by value)
+//	TupleV           multi-results
+//	MapV             maps
+//	*ssa.Function, *ClosureV, *ssa.Builtin   funcs
+//	BigV             math/big.Int payload (stored in the cell of a big.Int object)
+//	OnceV            sync.Once payload
+//	nil              zero func / untyped nil
 type Value interface{}
 
 type Sel struct {
